@@ -123,6 +123,67 @@ def run_case(case):
     return {"cnt": cnt, "viol": viol}
 
 
+def foreach_dist_case(job):
+    """dist on the elements of a list inside a foreach (the weights are copied when the foreach is expanded):
+    the exact marginal of every element must equal weight/total with uniform ranges"""
+    entries, weights, size = job
+    cnt = {"executions": 0, "transitions": 0, "states": 0, "nontrivial": 1, "capped": 0, "exact_checked": 0}
+    viol = []
+
+    @vsc.randobj
+    class DL(object):
+        def __init__(self):
+            self.l = vsc.rand_list_t(vsc.bit_t(3), size)
+
+        @vsc.constraint
+        def cd(self):
+            with vsc.foreach(self.l, idx=True) as i:
+                vsc.dist(self.l[i], [vsc.weight(tuple(e) if isinstance(e, list) else e, w) for e, w in zip(entries, weights)])
+
+    def run(s):
+        o = DL()
+        o.set_randstate(SRandState(s))
+        out = common.outcome(o.randomize)
+        return out[0], tuple(int(x) for x in o.l)
+    st = {}
+    margs = [dict() for _ in range(size)]
+    total = Fraction(0)
+    for x in explore(run, bound=None, cap=40000, state=st):
+        cnt["executions"] += 1
+        cnt["transitions"] += len(x.trace) + 1
+        kind, vals = x.obs
+        if kind != "ok":
+            viol.append({"subcheck": "dist_made_it_fatal", "case": {"foreach": True, "entries": entries, "weights": weights, "size": size},
+                         "observed": kind, "expected": "returns", "what": "dist inside foreach: call ended with %r" % kind})
+            break
+        for i, v in enumerate(vals):
+            margs[i][v] = margs[i].get(v, Fraction(0)) + x.prob
+        total += x.prob
+    if st.get("capped") or viol:
+        cnt["capped"] = 1 if st.get("capped") else 0
+        return {"cnt": cnt, "viol": viol}
+    exp = dist_reference(entries, weights)
+    cnt["exact_checked"] = size
+    cnt["states"] = sum(len(m) for m in margs)
+    for i, m in enumerate(margs):
+        if m != exp:
+            viol.append({"subcheck": "wrong_probability", "case": {"foreach": True, "entries": entries, "weights": weights, "size": size},
+                         "observed": {str(k): str(v) for k, v in m.items()}, "expected": {str(k): str(v) for k, v in exp.items()},
+                         "what": "dist %r weights %r on list element %d inside a foreach: exact marginal %s, weight/total gives %s" % (
+                             entries, weights, i, {k: str(v) for k, v in sorted(m.items())}, {k: str(v) for k, v in sorted(exp.items())})})
+            break
+    return {"cnt": cnt, "viol": viol}
+
+
+def foreach_jobs(tier):
+    jobs = []
+    for entries, weights in [([1, [4, 6]], [1, 2]), ([[0, 1], [5, 7]], [2, 1]), ([2, [3, 4], 7], [1, 1, 0]), ([[2, 5]], [3]),
+                             ([0, [6, 7]], [0, 2])]:
+        for size in ((1, 2) if tier == 'quick' else (1, 2, 3)):
+            jobs.append((entries, weights, size))
+    return jobs
+
+
 def overlap(entries):
     seen = set()
     for e in entries:
@@ -274,6 +335,21 @@ def run(res, only=None):
                 v["finding"] = classify(v)
                 res.violation(v)
         res.sample({"program": cases[0]["prog"], "entries": cases[0]["entries"]})
+    if only in (None, 'foreach'):
+        jobs = foreach_jobs(tier)
+        out = common.pmap(foreach_dist_case, jobs, chunk=1)
+        for j, r in common.good(jobs, out, res):
+            cnt = r["cnt"]
+            res.add("traces_validated_against_impl", cnt["executions"])
+            res.add("transitions", cnt["transitions"])
+            res.add("states", cnt["states"])
+            res.add("evaluations", cnt["executions"])
+            nontriv += 1
+            res.subcount("dist", "foreach_programs")
+            res.subcount("dist", "capped", cnt["capped"])
+            for v in r["viol"]:
+                v["finding"] = classify(v)
+                res.violation(v)
     if only in (None, 'select'):
         jobs = common.rotate(select_jobs(tier), res.seed)
         out = common.pmap(select_job, jobs)
@@ -301,6 +377,10 @@ def replay(rec):
     if rec["subcheck"] == "select_probability":
         r = select_job((c["kind"], tuple(c["weights"])))
         return (not r["viol"]), (r["viol"][0]["what"] if r["viol"] else "distribution matches")
+    if c.get("foreach"):
+        r = foreach_dist_case((c["entries"], c["weights"], c["size"]))
+        bad = [v for v in r["viol"] if v["subcheck"] == rec["subcheck"]]
+        return (not bad), (bad[0]["what"] if bad else "distribution matches the weights")
     pr = _detuple(c["prog"])
     wexpr = [tuple(w) if isinstance(w, list) else w for w in c["wexpr"]]
     r = run_case({'prog': pr, 'X': [c["X"]], 'entries': c["entries"], 'wexpr': wexpr, 'exact': c["exact"]})
